@@ -21,6 +21,7 @@ RULE = (
     "predicts (= what the old name returned), and a name no longer in use is refused. Non-trivial = >=2 names "
     "changed in a step, one longer than any previous name, chain >= 2. Distinct by sha1 of the canonical case."
     ' The Cooler object under test may be constructed with h5py options for its own handles (in-memory core driver with and without backing store, chunk cache size, libver).'
+    ' One joined pixel selector and one bin selector obtained BEFORE the first renaming are sliced again after every step.'
     ' A third of the chains applies ONE mapping object first to a sibling cooler holding only the first chromosome, then to the cooler under test.'
 )
 ASSUMPTIONS = ["renaming maps only name existing chromosomes and never produce duplicate names"]
@@ -107,7 +108,10 @@ def check_rename(case, ctx: Ctx):
         for ci, nm in enumerate(cur):
             ext = clr.extent(nm)
             check((int(ext[0]), int(ext[1])) == (offs[ci], offs[ci + 1]), f"extent({nm!r}) before any renaming")
-        _ = clr.pixels(join=True)[:]
+        held = clr.pixels(join=True)           # ONE joined selector object, used before and after every renaming
+        _ = held[:]
+        held_b = clr.bins()
+        _ = held_b[:]
         _ = clr.matrix(balance=False, as_pixels=True, join=True)[:]
         for step, m in enumerate(case["chain"]):
             old = list(cur)
@@ -131,6 +135,10 @@ def check_rename(case, ctx: Ctx):
             check(stored == cur, lambda: f"step {step}: chroms/name {stored} want {cur} (truncated or reordered?)")
             check(d == digest0, f"step {step}: a dataset or attribute other than the names changed")
             check(np.array_equal(codes, codes0), f"step {step}: bins/chrom codes changed")
+            hj = held[:]
+            check([str(x) for x in hj["chrom1"]] == [cur[codes0[r[0]]] for r in rows] and [str(x) for x in hj["chrom2"]] == [cur[codes0[r[1]]] for r in rows],
+                  lambda: f"step {step}: a joined pixel selector obtained before the renaming still labels rows {[str(x) for x in hj['chrom1']][:4]}, new names are {[cur[codes0[r[0]]] for r in rows][:4]}")
+            check([str(x) for x in held_b[:]["chrom"]] == [cur[k] for k in codes0.tolist()], f"step {step}: a bin selector obtained before the renaming still carries old names")
             for label, c in (("same object", clr), ("reopened", cooler.Cooler(uri))):
                 check(c.chromnames == cur, lambda: f"step {step} ({label}): chromnames {c.chromnames} want {cur}")
                 check([int(v) for v in c.chromsizes.values] == lens and list(c.chromsizes.index) == cur,
